@@ -3,7 +3,7 @@
 (* Build, construct, evaluate: AyBuild followed by AyEval, plus the Config  *)
 (* life cycle of C11 (evaluate the kept source again, mutate a result).     *)
 (***************************************************************************)
-EXTENDS AyBuild, AyEval, Props_Eval, Props_EvalUni
+EXTENDS AyBuild, AyEval, Props_Eval, Props_EvalUni, Props_C07
 
 CONSTANT MaxEvals      \* how many times the kept source is evaluated (C11)
 
@@ -78,6 +78,13 @@ Inv_C11 == ECheck("Inv_C11", status = "done" =>
                /\ \A r \in 1..Len(results) :
                       /\ ValData(heap, RootId) = results[r].data        \* re-evaluation gives an equal result
                       /\ ReachIds(heap, RootId) \cap {id \in results[r].ids : heap[id].k # "atom"} = {})   \* sharing nothing mutable
+\* C07: the call log with the DATA every call received
+CallsData == [i \in 1..Len(calls) |-> [p |-> calls[i].p, fn |-> calls[i].fn,
+                                        args |-> [a \in 1..Len(calls[i].args) |-> <<calls[i].args[a][1], ValData(heap, calls[i].args[a][2])>>]]]
+Inv_C07_Trees == ECheck("Inv_C07_Trees", (status # "idle" /\ C07_InDomain(HistDocs, HistSafes)) => C07_TaintSound(work, HistDocs, HistSafes))
+Inv_C07_Eval  == ECheck("Inv_C07_Eval", status # "idle" => C07_EvalHolds(work, status, CallsData, HistDocs, HistSafes))
+C07_Witness   == ETerminal /\ C07_InDomain(HistDocs, HistSafes) /\ C07_TaintedDyn(work, HistDocs, HistSafes) # {}
+
 SourceStable == [][status # "idle" => work' = work]_allvars
 
 \* ---- behaviours for replay ----------------------------------------------------
